@@ -426,6 +426,7 @@ func main() {
 		globalGetters(c, w)
 	}
 	signatures(c, w) // filtered per package name
+	transcripts(c, w)
 	if mon.Selected("small-fields") {
 		smallFields(c, w)
 		smallFields2(c, w)
